@@ -80,6 +80,9 @@ def apply_op(entry, op, model):
             return {"t": "field", "k": r.key, "v": absv(r)}
         if o == "contains":
             return {"t": "bool", "b": k in entry}
+        if o == "rename":
+            next(f for f in entry.fields if f.key == k).key = v      # the public setter of the held Field object
+            return {"t": "none"}
         if o == "getitem":
             try:
                 val = entry[k]
@@ -281,10 +284,14 @@ def run(chk: core.Check):
         nf = rnd.randint(0, 5)
         keys = rnd.sample(pool, nf)
         text = "@article{key%d,\n%s}\n" % (cid, ",\n".join("  %s = {%s}" % (k, rnd.choice(vals)) for k in keys))
+        if nf == 0 and cid % 3:
+            text = "@article{key%d}\n" % cid             # an entry written without comma and fields
+        text += "@misc{by%d}\n@misc{by%db,}\n" % (cid, cid)  # bystanders: entries nobody operates on
         lib = bib.parse_string(text)
-        if len(lib.entries) != 1:
+        if len(lib.entries) != 3:
             raise core.MachineryError("C19 generator produced an unparsable entry: " + text)
         e = lib.entries[0]
+        bystanders = [("entry of the same document", b, []) for b in lib.entries[1:]]
         if cid % 2:
             # the entry has been through the shipped middlewares before (their metadata is on it) and was edited since:
             # a mapping operation must not depend on that
@@ -295,18 +302,50 @@ def run(chk: core.Check):
                 lib = mw.transform(lib)
             e = lib.entries[0]
             e.fields = [model.Field(k0, v0, l0) for k0, v0, l0 in keep]
+            bystanders = [("entry of the same document", b, []) for b in lib.entries[1:]]
         case = {"id": cid, "ety": e.entry_type, "eid": e.key, "init": proj_fields(e.fields), "ev": []}
         depth = rnd.choice([30, 60, 200]) if chk.tier == "thorough" else rnd.choice([30, 60])
         for _ in range(depth):
-            o = rnd.choice(["set_field", "setitem", "pop", "delitem", "get", "contains", "getitem", "getitem"])
+            # (a shallow copy shares its Field objects with the entry, so assigning a key there would reach into the copy:
+            # histories with renames take deep copies only)
+            renames = cid % 2 == 0
+            o = rnd.choice(["set_field", "setitem", "pop", "delitem", "get", "contains", "getitem", "getitem", "rename" if renames else "get", "copy"])
+            if o == "copy":
+                # not an event of the history: somebody takes a (shallow or deep) copy and keeps it; whatever happens to
+                # the entry afterwards, the copy's three views keep describing the same fields in the same order
+                if len(bystanders) < 6:
+                    c0 = copy.copy(e) if (rnd.random() < 0.7 and not renames) else copy.deepcopy(e)
+                    bystanders.append(("copy taken at step %d" % len(case["ev"]), c0, None))
+                continue
             k = rnd.choice(pool + (["ENTRYTYPE", "ID"] if o == "getitem" else []))
             op = {"op": o, "k": k, "v": (rnd.choice(vals) + ("~" if o == "setitem" else "")) if o in ("set_field", "setitem") else "-"}
+            if o == "rename":
+                held = [f.key for f in e.fields]
+                free = [x for x in pool + ["new"] if x not in held]
+                if not held or not free:
+                    continue
+                op = {"op": "rename", "k": rnd.choice(held), "v": rnd.choice(free)}
             r = apply_op(e, op, model)
+            for what, b, want_fields in bystanders:
+                fk = [f.key for f in b.fields]
+                dk = list(b.fields_dict.keys())
+                ik = [k2 for k2, _ in list(b.items())[2:]]
+                if not (fk == dk == ik) or (want_fields is not None and fk != want_fields) \
+                        or any(b.fields_dict[x] is not f for x, f in zip(fk, b.fields)):
+                    chk.mismatch("bystander_views", {"kind": "history", "case": {**case, "ev": case["ev"] + [dict(op)]}, "bystander": what},
+                                 {"fields": fk, "fields_dict": dk, "items": ik}, "the three views agree" + (" and stay empty" if want_fields == [] else ""),
+                                 spec={"module": "Entry", "operator": "ViewsAgree"}, kind="entry_history")
+                    bystanders = [x for x in bystanders if x[1] is not b]
             ev = dict(op)
             ev["r"] = r
             ev.update(observe(e))
             case["ev"].append(ev)
         cases.append(case)
+        # ... and an entry parsed afterwards from the same kind of text starts empty
+        for b in bib.parse_string("@misc{later%d}\n@misc{later%db,}" % (cid, cid)).entries:
+            if b.fields or b.fields_dict or len(list(b.items())) != 2:
+                chk.mismatch("bystander_views", {"kind": "history", "case": case, "bystander": "entry parsed afterwards"},
+                             {"fields": [f.key for f in b.fields]}, "an entry written without fields has none", kind="entry_history")
     rejects, results = core.validate_traces("Trace_Entry", cases, shards=8)
     for r in results:
         chk.add_tlc(r, "Trace_Entry shard", count_states=False)
